@@ -123,7 +123,7 @@ func DeepCast(val Value, typ ast.Type, span errors.Span, allowCasts bool) (*Valu
 			return &val, nil
 		}
 	case ObjectValueKind:
-		if !allowCasts && typ.Kind() != ast.ObjectTypeKind {
+		if !allowCasts && (typ.Kind() != ast.ObjectTypeKind && typ.Kind() != ast.AnyObjectTypeKind) {
 			return nil, NewRuntimeErr(
 				fmt.Sprintf("Incompatible values: a value of type '%s' is not compatible with a value of type '%s'", val.Kind(), typ),
 				CastErrorKind,
@@ -207,6 +207,8 @@ func DeepCast(val Value, typ ast.Type, span errors.Span, allowCasts bool) (*Valu
 				span,
 			)
 		}
+
+		return &val, nil
 	case OptionValueKind:
 		if typ.Kind() != ast.OptionTypeKind {
 			return nil, NewRuntimeErr(
